@@ -482,6 +482,18 @@ pub fn run_updater(msgs: Vec<Message>, max_drift_ppb: u32, after: impl FnMut(usi
     verif_writer::process_messages_with(ctx, RecSink { n: 0, after }, max_drift_ppb);
 }
 
+/// As `run_updater`, with the given sink (e.g. the real `ShmWriter`, as the daemon itself uses).
+pub fn run_updater_with<W: ShmWrite>(msgs: Vec<Message>, max_drift_ppb: u32, writer: W) {
+    let (mut mbox, dbox) = new_channel_web(vec![ChannelId::ShmWriter]);
+    let my_mbox = mbox.get_mailbox(&ChannelId::ShmWriter).unwrap();
+    for m in msgs {
+        let _ = dbox.send(&ChannelId::ShmWriter, m);
+    }
+    let _ = dbox.send(&ChannelId::ShmWriter, Message::ThreadAbort);
+    let ctx = Context { mbox: my_mbox, dbox, channel_id: ChannelId::ShmWriter };
+    verif_writer::process_messages_with(ctx, writer, max_drift_ppb);
+}
+
 /// Convenience: the records published for a list of messages, all processed at the current virtual time.
 pub fn published_for(msgs: Vec<Message>, max_drift_ppb: u32) -> Vec<Rec> {
     let out = Rc::new(RefCell::new(vec![]));
